@@ -11,9 +11,10 @@ VOLATILE = {"uid", "created", "modified", "gitinfo", "version", "_fcn"}
 
 
 def snap(o, volatile=(), _seen=None):
-    """Nested canonical structure (lists/tuples/strings) of o.  Attributes named in `volatile` are skipped."""
+    """Nested canonical structure (lists/tuples/strings) of o.  Attributes named in `volatile` are skipped.
+    Every container/object is expanded once (first visit in deterministic traversal order); later visits are ("ref", k)."""
     if _seen is None:
-        _seen = set()
+        _seen = {}
     if o is None or isinstance(o, (bool, int, str)):
         return o
     if isinstance(o, float):
@@ -28,8 +29,8 @@ def snap(o, volatile=(), _seen=None):
         return ("bytes", hashlib.md5(o).hexdigest())
     oid = id(o)
     if oid in _seen:
-        return "<cycle>"
-    _seen = _seen | {oid}
+        return ("ref", _seen[oid][0])
+    _seen[oid] = (len(_seen), o)  # keep the object alive so that ids are not reused during the traversal
     if isinstance(o, dict):
         return ("dict", type(o).__name__, [(snap(k, volatile, _seen), snap(v, volatile, _seen)) for k, v in o.items()])
     if isinstance(o, (list, tuple)):
